@@ -319,6 +319,10 @@ class Dom(Family):
                         specials.append((codec, 'a' + lf_pair + 'b\r\nsecond\r\n', rng.choice([None, 0, 2])))
                         if crlf_triple:
                             specials.append((codec, 'a' + crlf_triple + 'b\nsecond\n', rng.choice([None, 0, 2])))
+                    # lone surrogates from the range an error handler such as surrogateescape maps to bytes: such a tree
+                    # does not serialise (strict encoding); if it ever does, it must come back unchanged
+                    specials += [('latin-1', 'caf\udce9\n', None), ('utf-8', 'x\udc80\n', 2), ('ascii', '\udcff', None),
+                                 ('utf-16', 'a\udce9\n', None)]
                     specials += [('utf-8', ' lead\n  two\nx\n', 1025), ('utf-16', ' lead\n  two\nx\n', 1024),
                                  ('utf-8', 'x' * 65535 + '\r\ntail\r\n', 2), ('utf-8', 'y' * 8191 + '\r\n a\n b\r\n', 2)]
                     codec, text, ind = specials[(i // 15) % len(specials)]
